@@ -1,6 +1,7 @@
 import IpamVerif.NoRewrite
 import IpamVerif.Tight
 import IpamVerif.Restart
+import IpamVerif.Stable
 /-!
 # C08 — pod CIDRs of a node are never changed; re-syncing a node is a no-op
 
@@ -10,7 +11,9 @@ untouched, under every write outcome).  **Proved on the fragment of `Safety.lean
 processing a node that has pod CIDRs — any number of times, at any reachable moment — leaves every used set and
 every association exactly as it was: it "reserves nothing beyond that node's own CIDRs", which are reserved
 already.  Outside the fragment a re-sync can record the node a second time in another ClusterCIDR over the same
-range (root of the findings P11 / P22).
+range (root of the findings P11 / P22).  **Proved over whole histories with no assumption** (`Stable.lean`,
+`assigned_cidrs_never_change`): from the moment the API shows a node with pod CIDRs until that node is deleted, every
+later state shows it with exactly those pod CIDRs.
 -/
 namespace Ipam.C08
 open Ipam Ipam.Safety
@@ -43,5 +46,38 @@ theorem resync_reserves_nothing_after_any_history_with_restarts (s0 : Sys) (h0 :
     (hc : n.hasCidrs = true) (refresh : Bool) (ws : List WOut) :
     AllocEqv (run s0 evs).alloc (allocateOrOccupy (run s0 evs) n refresh ws).1.alloc :=
   resync_reserves_nothing _ (Restart.inv3_run evs s0 h0 hf).inv n hn hnd hc refresh ws
+
+/-- **pod CIDRs of a node are never changed** — every history, no assumption: once the API shows the node with pod
+CIDRs, every state any continuation reaches (restarts at any instant, failed / lost / retried writes, stale caches, label
+edits, ClusterCIDR churn, other writers) shows it with exactly those pod CIDRs, up to the deletion of that node -/
+theorem assigned_cidrs_never_change (s : Sys) (evs : List Ev) (name : String) (y : NodeObj)
+    (hy : getNode s.api.nodes name = some y) (hc : y.hasCidrs = true) (hnd : ∀ e ∈ evs, e ≠ .nodeDel name) :
+    ∃ y', getNode (run s evs).api.nodes name = some y' ∧ y'.cidrs = y.cidrs ∧ y'.junk = y.junk :=
+  run_keeps evs s name y hy hc hnd
+
+/-- ... in particular between any two instants of a history that starts from the empty cluster -/
+theorem assigned_cidrs_never_change_from_init (before after : List Ev) (name : String) (y : NodeObj)
+    (hy : getNode (run Sys.init before).api.nodes name = some y) (hc : y.hasCidrs = true)
+    (hnd : ∀ e ∈ after, e ≠ .nodeDel name) :
+    ∃ y', getNode (run Sys.init (before ++ after)).api.nodes name = some y' ∧ y'.cidrs = y.cidrs ∧ y'.junk = y.junk := by
+  have h : run Sys.init (before ++ after) = run (run Sys.init before) after := by unfold run; rw [List.foldl_append]
+  rw [h]
+  exact run_keeps after _ name y hy hc hnd
+
+/-- the premises are met by a real history: the controller starts, a node is created and served (the answer to the
+PATCH is lost) … -/
+def exBefore : List Ev :=
+  [.boot [] [], .nodeAdd ⟨"n2", [], [], false, false⟩, .deliverNode "n2" false, .procNode "n2" false [.lost]]
+/-- … then somebody tries to give it other pod CIDRs, the controller restarts (a finalizer write fails), re-syncs the node
+with failing writes, its labels are edited so that another ClusterCIDR selects it, and it is synced once more -/
+def exAfter : List Ev :=
+  [.nodeSetCIDRs "n2" [⟨.v4, 0x0a000100, 28⟩], .boot [] [.fail], .procNode "n2" true [.fail],
+   .nodeLabels "n2" [("zone", "a")], .deliverNode "n2" false, .procNode "n2" false []]
+
+example : (getNode (run Restart.exStart3 exBefore).api.nodes "n2").map (fun n => (n.hasCidrs, n.cidrs.map (·.addr))) =
+    some (true, [0x0a000000]) := by decide +kernel
+example : ∀ e ∈ exAfter, e ≠ Ev.nodeDel "n2" := by decide
+example : (getNode (run Restart.exStart3 (exBefore ++ exAfter)).api.nodes "n2").map (fun n => n.cidrs.map (·.addr)) =
+    some [0x0a000000] := by decide +kernel
 
 end Ipam.C08
